@@ -54,7 +54,7 @@ def variables(spec):
     return seen
 
 
-def rand_spec(rng, family=None, tiles=True, empties=True):
+def rand_spec(rng, family=None, tiles=True, empties=True, big=False):
     ops, out = family if family is not None else rng.choice(FAMILIES)
     ops = [list(o) for o in ops]
     vs = []
@@ -63,6 +63,10 @@ def rand_spec(rng, family=None, tiles=True, empties=True):
             if v not in vs:
                 vs.append(v)
     ext = {v: rng.randint(1, 5) for v in vs}
+    if big:
+        # one long rank (searches and shortcuts inside long fibers), the others short
+        ext = {v: rng.randint(1, 3) for v in vs}
+        ext[rng.choice(vs)] = rng.randint(17, 40)
     vals = {}
     for name, idx in ops:
         dens = rng.choice([0.0, 0.3, 0.6, 0.9, 1.0]) if empties else rng.choice([0.4, 0.7, 1.0])
@@ -259,6 +263,10 @@ def execute(spec, tensors, Z, lvars, zl, observer=None, nested_and=True):
             co = fibers[0]
         elif style == "leader-follower":
             co = Fiber.intersection(*fibers, style="leader-follower")
+        elif nested_and == "right" and len(fibers) > 2:
+            co = fibers[-1]
+            for f in reversed(fibers[:-1]):
+                co = f & co         # a & (b & (c & d))
         elif nested_and or len(fibers) == 2:
             co = fibers[0] & fibers[1]
             for f in fibers[2:]:
@@ -276,6 +284,13 @@ def execute(spec, tensors, Z, lvars, zl, observer=None, nested_and=True):
                 flat = [pv]
             elif style == "leader-follower" or not (nested_and or len(fibers) == 2):
                 flat = list(pv)
+            elif nested_and == "right" and len(fibers) > 2:
+                flat = []
+                x = pv
+                while len(flat) < len(fibers) - 2:
+                    flat.append(x[0])
+                    x = Payload.get(x[1])
+                flat += [x[0], x[1]]
             else:
                 flat = []
                 x = pv
